@@ -72,6 +72,22 @@ def run(repo, rep, tier):
     # data-meta-interpolation is meta:interpolation (C18 owns the conversion)
     from . import c18 as _c18
     L.borrow(repo, rep, "R06.2", "C18", _c18._keyed, ("language-only",))
+    # a name the table does not know is left as written: the character is
+    # made only when a code point was found
+    se = repo.func("chameleon.utils.substitute_entity")
+    chrs = [c for c in ast.walk(se.node) if isinstance(c, ast.Call)
+            and src(c.func) == "chr" and c.args
+            and isinstance(c.args[0], ast.Name)]
+    okc = bool(chrs)
+    for c in chrs:
+        gs = [src(L._CanonIf._pos(t_)[0]) for t_, v_ in
+              L.guards_of(c, se.node) if isinstance(t_, ast.expr)]
+        if c.args[0].id not in [g for g in gs] and not any(
+                g.startswith(c.args[0].id + " ") for g in gs):
+            okc = False
+    rep.check(okc, "R06.3", se.qualname, "chr() of a looked-up code point "
+              "is guarded by that code point", construct="chr-guarded",
+              where=L.where(se))
     L.state_rule(repo, rep)
 
 
